@@ -173,6 +173,7 @@ impl Profile {
             }
             "C10" => {
                 p.name = "C10-sizes";
+                p.w_restart = 1;
                 p.blob_boundary = true;
                 p.rel = Some(true);
                 p.rel_bias = 2;
@@ -1291,6 +1292,13 @@ impl Sim {
         let ci = self.rng.below(self.clients.len());
         let Some(ent) = self.clients[ci].ent else { return };
         if !self.clients[ci].authorized {
+            // a connection that is not (yet) authorized writes to the acknowledgement channel: ignored,
+            // and it must not disturb what the authorized clients queued behind it in the same frame
+            let n = 1 + self.rng.below(6);
+            let m = self.rng.bytes(n);
+            self.note(format!("junk ack from unauthorized client{ci} {m:02x?}"));
+            self.obs.inc("junk_acks_from_unauthorized");
+            self.server.world_mut().resource_mut::<RepliconServer>().insert_received(ent, 0usize, m);
             return;
         }
         let n = 1 + self.rng.below(4);
